@@ -237,6 +237,21 @@ def _run(case):
                 other_exc(fn, sel, exc)
             elif not isinstance(exc, InvalidSelectorError):
                 classes.append("near-refused-by:" + type(exc).__name__)
+        # the queries with inherited / descendants flags, also on a subject that carries an object-level marking
+        # (a shortcut through the object-level markings must not skip selector validation)
+        marked_head, exc0 = core.guarded(markings.add_markings, head, M, None)
+        subjects = [(head, "plain")] + ([(marked_head, "object-marked")] if exc0 is None else [])
+        for subj, sname in subjects:
+            for flags in ({"inherited": True}, {"descendants": True}, {"inherited": True, "descendants": True}):
+                probes = [("is_marked", (subj, M, [sel])), ("is_marked", (subj, None, [sel])), ("get_markings", (subj, [sel]))]
+                for fn, args in probes:
+                    r, exc = core.guarded(getattr(markings, fn), *args, **flags)
+                    if exc is None:
+                        fails.append(("invalid-selector-accepted:%s:flags" % fn, "%s(%s %s %s, %s, %s) accepts selector %r (%s of %r), which addresses nothing; returned %s" % (
+                            fn, version, doc["type"], form, sname, flags, sel, spec["kind"], base, core.short(repr(r), 120))))
+                    elif not isinstance(exc, STIXError):
+                        other_exc(fn, sel, exc)
+        classes.append("near-with-flags")
     if ser(head) != before:
         fails.append(("input-modified", "a marking function changed the object it was given"))
     info = {"classes": classes, "distinct": distinct, "counts": counts}
